@@ -9,7 +9,7 @@ META = dict(
     note='As the statement says, files modified since the last snapshot are protected only on paths the update does not touch (the code\'s own TODO). The debug-assertion panic "changed_file_states must be sorted" reached when a directory of the old tree was replaced by a file/symlink is a known finding.',
     design='4 C25',
 )
-READY = False
+READY = True
 LEVEL = META["category"]
 
 
@@ -18,5 +18,5 @@ def run(ctx):
         ctx, "C25",
         mc_cfgs=[ctx.q("c25", "c25_thorough")],
         neg_cfgs=[("neg_co_overwrite", "Inv_C25"), ("neg_co_follow_symlink", "Inv_C25"), ("finding_unsorted", "Inv_C25")],
-        gen_cfgs=[("gen_c25", ctx.q(300, 2400))],
-        n_random=ctx.q(300, 4000), focus="checkout")
+        gen_cfgs=[("gen_c25", ctx.q(300, 1000))],
+        n_random=ctx.q(300, 2000), focus="checkout")
